@@ -589,4 +589,44 @@ theorem decFlagInto_sound (mi : Nat) (m0 : Msg) (b : List Byte) (m : Msg) (hw : 
 
 end
 
+/-- **the verdict of a top-level Unmarshal (merging or not) is `initMsg` of the resulting message**, given
+exact `needsInitCheck` results -/
+theorem unmarshalTop_verdict (S : Schema) (xr nd : Nat → Bool) (hS : schemaOK S = true) (hM : MapOK S xr)
+    (hX : ExtOK S xr) (hR : ReqOK S) (hnd : ∀ i, nd i = true ↔ Reaches S xr i)
+    (mi : Nat) (merge : Bool) (m0 : Msg) (b : List Byte) (limit : Int) (dis : Bool) (m : Msg) (v : Bool)
+    (hw : merge = true → dwfMsg S mi m0 = true)
+    (h : unmarshalTop S nd mi merge m0 b limit dis = .ok (m, v)) : v = initMsg S mi m := by
+  unfold unmarshalTop at h
+  cases hu : unmarshalInto S mi (if merge = true then m0 else Msg.empty) b limit dis with
+  | error e => rw [hu] at h; cases h
+  | ok m1 =>
+    rw [hu] at h
+    simp only [Except.map, Except.ok.injEq, Prod.mk.injEq] at h
+    obtain ⟨rfl, hv⟩ := h
+    unfold unmarshalInto at hu
+    split at hu
+    · cases hu
+    · have hstart : dwfMsg S mi (if merge = true then m0 else Msg.empty) = true := by
+        cases merge with
+        | true => simpa using hw rfl
+        | false => simpa using dwfMsg_empty S mi
+      have hm1 : dwfMsg S mi m1 = true := (dec_inv S hS _).1 _ _ _ _ _ _ hstart hu
+      have hfast : initFastMsg S nd mi m1 = initMsg S mi m1 :=
+        fast_msg S xr nd hM hX hnd m1 mi (ty_of_dwfMsg S xr hM m1 mi hm1)
+      rw [hfast] at hv
+      cases merge with
+      | true => simpa using hv.symm
+      | false =>
+        simp only [Bool.not_false, Bool.true_and, Bool.false_eq_true, if_false] at hv hu
+        cases hfl : flagLoop S nd .andOcc (fuelFor b) mi true [] b with
+        | false => rw [hfl] at hv; simpa using hv.symm
+        | true =>
+          have hnd' : ∀ i, nd i = false → ¬ Reaches S xr i := fun i hi hr => by
+            have := (hnd i).2 hr; rw [hi] at this; cases this
+          have := (flag_inv S xr nd .andOcc hS hM hX hR hnd' (Or.inl rfl) (fuelFor b)).1 mi Msg.empty true [] b _ dis m1
+            (dwfMsg_empty S mi) (fun _ => by simp [Msg.empty, Msg.fields, initFields])
+            (by intro n hn; cases hn) hu hfl
+          rw [hfl, this] at hv
+          rw [this]; simpa using hv.symm
+
 end FastInit
